@@ -29,7 +29,10 @@ var verifCancelQueries = []string{
 // result — never a successful partial one —, nothing deadlocks, and after the query is
 // closed no goroutine is left behind; queriers are closed.
 func VerifH14p() {
-	qi := sym.Choice("query", len(verifCancelQueries))
+	// registry parameter H14p.from: explore only the shapes from that index on (used with
+	// schedule exploration, where the full list would be too many schedules)
+	from := sym.Param("H14p.from", 0)
+	qi := from + sym.Choice("query", len(verifCancelQueries)-from)
 	qs := verifCancelQueries[qi]
 	// how the query is cancelled: 0 = the context given to Exec is cancelled; 1 = Cancel()
 	// is called on the query (as from another goroutine) and the storage then blocks until
@@ -81,6 +84,10 @@ func VerifH14p() {
 			cancelled = true
 			if cancelBy == 0 {
 				cancel()
+				// this storage call stays in flight while every other goroutine runs as
+				// far as it can: Exec must not return before the call has returned and
+				// its querier is closed (C17)
+				sym.LetOthersRun()
 			} else {
 				q.Cancel()
 				<-store.LastCtx.Done() // blocks for ever if Cancel() does not reach the storage's context
